@@ -5,6 +5,7 @@ def c05 (input implOut : Sexp) : Option Verdict :=
   match input with
   | .list (.atom "api" :: _) => api input implOut
   | .list (.atom "run" :: _) => run input implOut
+  | .list (.atom "rerun" :: _) => rerun input implOut
   | .list (.atom "comp" :: _) => comp input implOut
   | _ => none
 
